@@ -7,7 +7,7 @@ ROOT=$(pwd)
 export GOFLAGS=-mod=mod GOPROXY=off GOSUMDB=off GOTOOLCHAIN=local
 ID="$1"; MODE="${2:-quick}"
 [ -n "$ID" ] || { echo "usage: $0 <Cxx> quick|thorough|--replay <path>"; exit 3; }
-mkdir -p .build
+mkdir -p .build; find .build/c15ref -mindepth 1 -maxdepth 1 -mmin +30 -exec rm -rf {} + 2>/dev/null
 build() { # $1 = output name, $2 = package, rest = go build flags
   out="$1"; pkg="$2"; shift 2
   if ! go build "$@" -o ".build/$out.$$" "$pkg" >".build/$out.$$.log" 2>&1; then
